@@ -302,7 +302,15 @@ def params_of(toks, m, fn_idx):
     return names
 
 def nth_block_after(toks, m, seq_text, nth=0, lo=0, hi=None):
-    """the `{...}` group that directly follows the nth occurrence of the token sequence"""
+    """the `{...}` group that directly follows the nth occurrence of the token sequence. A list of sequences is a path: each one is looked for
+    after (and, for the first, starting at) the previous match, so text between them may vary."""
+    if isinstance(seq_text, (list, tuple)):
+        for part in seq_text[:-1]:
+            q = pat(part)
+            at = find_seq(toks, q, lo, hi)
+            if at < 0: raise ExtractError("anchor lost: %r" % (part,))
+            lo = at + len(q)
+        seq_text = seq_text[-1]
     p = pat(seq_text)
     occ = find_all_seq(toks, p, lo, hi)
     if len(occ) <= nth: raise ExtractError("anchor lost: %r[%d]" % (seq_text, nth))
@@ -1241,3 +1249,30 @@ def r9_strmatch(toks, stats):
         toks[i:cb + 1] = new
         n_done += 1
         stats["R9.strmatch"] = stats.get("R9.strmatch", 0) + 1
+
+
+# ------------------------------------------------------------------------------------------------
+# R17: `x |= E;` / `x &= E;` on bools (Verus: "bitwise OR for bools ... not supported") -> `x = (E) || x;` / `x = (E) && x;`
+# E is still evaluated exactly once and first; only the (pure) re-read of x is short-circuited. On integers the rewritten text does not
+# type-check (tool error, never a wrong verdict).
+# ------------------------------------------------------------------------------------------------
+def r17_bool_compound_assign(toks, stats):
+    i = 0
+    while i < len(toks):
+        t = toks[i]
+        if t.s in ("|=", "&=") and i >= 1 and toks[i - 1].k == "id" and (i < 2 or toks[i - 2].s in (";", "{", "}")):
+            m = match_table(toks)
+            j = i + 1
+            while j < len(toks) and toks[j].s != ";":
+                if toks[j].k == "o": j = m[j]
+                j += 1
+            name = toks[i - 1]
+            op = "||" if t.s == "|=" else "&&"
+            expr = toks[i + 1:j]
+            new = T("= (") + expr + T(") %s %s" % (op, name.s))
+            toks[i:j] = new
+            stats["R17.bool_compound_assign"] = stats.get("R17.bool_compound_assign", 0) + 1
+            i += len(new)
+            continue
+        i += 1
+    return toks
